@@ -19,7 +19,11 @@ def run(ctx):
     ctx.translate()
     ctx.proof("Props/C09.v")
     ctx.tie("k_compile", k_compile.tie_compile)
-    ctx.tie("k_seriescomp", k_seriescomp.tie_seriescomp)
+    t = ctx.tie("k_seriescomp", k_seriescomp.tie_seriescomp)
+    ctx.oracle("o_multi_requests", lambda c: dict(
+        evaluations=t.get("cases", 0), nontrivial=t.get("cases", 0),
+        rule="implementation half of k_seriescomp: slice / list requests on every series name equal the scalar requests on a fresh computation and do not raise",
+        samples=[], failures=t.get("impl_failures", [])))
     ctx.oracle("o_interp", o_interp.oracle_interp)
     ctx.oracle("o_extras", o_interp.oracle_extras)
     ctx.searcher(search)
@@ -39,6 +43,12 @@ def replay(rp):
     from oracles import o_interp
 
     f = rp.get("failure")
+    if f and "multi_request" in f.get("input", {}):
+        from harness import k_seriescomp
+
+        what = k_seriescomp.replay_multi(f["input"])
+        print("still failing: %s" % what if what else "no longer failing")
+        return 1 if what else 0
     if f and "extra" in f.get("input", {}):
         fails = o_interp.replay_extra(f["input"])
         print("still failing: %s" % fails[0]["what"] if fails else "no longer failing")
